@@ -144,6 +144,14 @@ class InterleavedThreadPool:
         self.q.append(t)
         return IFuture(self, t)
 
+    def map(self, fn, *iterables, timeout=None, chunksize=1):
+        fs = [self.submit(fn, *args) for args in zip(*iterables)]
+
+        def gen():
+            for f in fs:
+                yield f.result()
+        return gen()
+
     def enabled(self):
         running = [t for t in self.q if t.started and not t.done]
         en = list(running)
